@@ -26,7 +26,7 @@ def _exprs_to_axes(exprs):
     values2 = {}
     for name, xs in values.items():
         shape = np.amax([coord for coord, value in xs], axis=0) + 1
-        value = np.zeros(shape, dtype="int32")
+        value = np.zeros(shape, dtype="int64")
         for coord, v in xs:
             value[coord] = v
         if value.shape == ():
